@@ -1365,6 +1365,9 @@ func TestVerifC20(t *testing.T) {
 	// the code under test allocates on every range check; the harness keeps a modest live heap
 	// (records, cached key conditions), so a lazier collector only trades memory for time
 	debug.SetGCPercent(800)
+	// a worker is one goroutine; 16 workers with 16 Ps each only make the collectors of the 16 processes fight for the
+	// cores on a shared machine (measured: 760 -> 1215 CPU-seconds for the same quick run under load)
+	runtime.GOMAXPROCS(2)
 	if kit.ReplayPath() != "" {
 		var part struct {
 			Part string `json:"part"`
